@@ -110,6 +110,9 @@ def run(ctx):
     # whole texts
     texts = [G.control_text(rng) for _ in range(ctx.n(12000, 150000))]
     texts += [G.unicode_text(rng, 40) for _ in range(ctx.n(1500, 20000))]
+    # texts inside a clear-sign envelope: every line is accounted for under its own number, the envelope included
+    texts += ['-----BEGIN PGP SIGNED MESSAGE-----\nHash: SHA512\n\n' + t.rstrip('\n') + '\n-----BEGIN PGP SIGNATURE-----\n\niQEzBAEBCgAdFiEE\n=abcd\n-----END PGP SIGNATURE-----\n'
+              for t in texts[:ctx.n(300, 3000)] if t.strip() and '\r' not in t]
     lines_small = ['a: b', 'a:', ' c', ' .', '', ' ', 'junk', 'B: d']
     L2 = ctx.n(5, 6)
     seqs = []
@@ -126,6 +129,9 @@ def run(ctx):
     # large texts (beyond 4096 and 65536 lines) with dense periodic structure: the executable statement only
     big = [G.big_text(rng, n, period, phase, term) for n, period, phase, term in
            [(9000, 2, 0, '\n'), (9000, 2, 1, '\n'), (9000, 3, 0, '\n'), (9000, 3, 1, '\n'), (6000, 2, 0, '\r\n'), (70000, 2, 0, '\n'), (70000, 2, 1, '\n')]]
+    # beyond 1 MiB, with one kind of line end, blank line, separator or marker placed exactly on every multiple of 4096
+    # characters (hence on every multiple of 64 KiB and 1 MiB as well)
+    big += [G.aligned_text(rng, 2200000 if f in ('crlf-straddle', 'line-start') else 1100000, f) for f in ('crlf-straddle', 'line-start', 'blank-start', 'sep-straddle', 'marker-start')]
     fails += ctx.prop('prop:lines:large', big, p_lines)
     kinds = {}
     for t in texts[:5000]:
